@@ -9,12 +9,12 @@ Local Open Scope list_scope.
 
 (* ------------------------------------------------------------------ the fragment of stage (i) *)
 Definition window_is_empty (w : window) : bool := is_nil (w_part w) && is_nil (w_order w) && is_nil (w_rev w).
-(* the source of an id-column concat is neither an order_rows without limit nor an un-windowed extend: the builder's
-   `.extend({id: label})` then simply adds a new ExtendNode on top *)
+(* the source of an id-column concat is not an order_rows without limit (the builder's `.extend({id: label})` would skip it:
+   rows in another order); over an un-windowed extend the builder merges the label into that ExtendNode, anything else gets
+   a new ExtendNode on top *)
 Definition concat_src_ok (a : op) : bool :=
   match a with
   | OOrder _ _ _ None => false
-  | OExtend _ _ false (mkwin [] [] []) => false
   | _ => true
   end.
 (* m = the dialect merges extends at SQL level (allow_extend_merges); a WINDOWED extend is covered when it does not *)
@@ -118,6 +118,22 @@ Proof.
 Qed.
 
 (* ------------------------------------------------------------------ UNION ALL *)
+Lemma extend_fold_snd (F : list val -> string * expr -> val) (ops : list (string * expr)) r0 : forall row ccs,
+  snd (fold_left (fun (acc : list val * list string) ke => let '(row, ccs) := acc in (set_cell ccs row (fst ke) (F r0 ke), add_end ccs (fst ke))) ops (row, ccs))
+  = ext_cols ccs (map fst ops).
+Proof. induction ops as [|ke t IH]; intros row ccs; simpl; [reflexivity|]. rewrite IH. reflexivity. Qed.
+
+(* appending a constant assignment to an extend = a second extend (the builder's merge of the id column) *)
+Lemma sem_extend_app_const ops c v S :
+  sem_extend fl (ops ++ [(c, EConst v)]) S = sem_extend fl [(c, EConst v)] (sem_extend fl ops S).
+Proof.
+  unfold sem_extend. cbn [cols rows]. f_equal.
+  - unfold ext_cols. rewrite map_app, fold_left_app. reflexivity.
+  - rewrite map_map. apply map_ext. intros r. unfold extend_row. rewrite fold_left_app. cbn [fold_left].
+    pose proof (extend_fold_snd (fun r0 ke => eval_expr fl (cols S) r0 (snd ke)) ops r r (cols S)) as E2.
+    destruct (fold_left _ ops (r, cols S)) as [row ccs] eqn:EF. cbn [snd] in E2. cbn [fst snd eval_expr]. rewrite E2. reflexivity.
+Qed.
+
 Lemma sem_extend_const_fresh c v A : mem c (cols A) = false -> width_ok A ->
   sem_extend fl [(c, EConst v)] A = mktable (cols A ++ [c]) (map (fun r => r ++ [v]) (rows A)).
 Proof.
